@@ -1163,7 +1163,10 @@ fn try_read(fd: RawFd, buf: &mut [u8]) -> nix::Result<Option<usize>> {
     // The socket is readable - but some other process might get there first.
     // We have to set an alarm() in case our read() gets stuck.
     #[cfg(feature = "verif")]
-    crate::verif::point("js.tryread", &format!("{}", fd));
+    crate::verif::point(
+        "js.tryread",
+        &format!("{} {}", fd, std::env::var("REDO_TARGET").unwrap_or_default().replace(' ', "_")),
+    );
     // The handler must be installed without SA_RESTART (which signal() implies):
     // otherwise the kernel restarts the read() after every alarm and a stolen
     // token blocks this process for ever.
